@@ -124,6 +124,17 @@ def check(prop, tier, seed):
         raise core.ToolError(f'ReflStream: {r.get("violated")} {r.get("never_taken")}\n' + r.get('output_tail', '')[-2500:])
     mc.append(r)
     mc.append(core.tlc_mc('MC_ReflStream', 'MC_ReflStream_trysend.cfg', workers=4, timeout=600, expect_violation='Contract', check_actions=False))
+    # unbounded: TLAPS proof that answers come in the order of the queries and nothing follows an error, for sessions of any length
+    pr = core.tlapm_check('ReflStreamProof', ['ReflStream'])
+    if not pr['ok']:
+        raise core.ToolError('tlapm: the proof that ReflStream.tla keeps answers in order (ReflStreamProof.tla) no longer goes through:\n' + pr.get('output_tail', ''))
+    cov['tlaps_proof'] = {'theorem': 'Spec => [](AnswersInOrder /\\ NothingAfterError) for all Sessions', 'obligations_proved': pr['obligations'], 'wall_s': pr['wall_s']}
+    if tier == 'thorough':
+        neg = core.tlapm_check('ReflStreamProof', ['ReflStream'], name='ReflStreamProof_neg',
+                               mutate=lambda t: t.replace('/\\ \\A k \\in 1..P : qs[k] = "M" => (k = P /\\ w.pc \\in {"send", "done"})', '/\\ TRUE'))
+        if neg['ok']:
+            raise core.ToolError('tlapm proved NothingAfterError without the invariant clause that carries it: the proof is vacuous')
+        cov['tlaps_proof']['without_the_error_clause_of_the_invariant'] = 'proof fails (as it must)'
     rows, st = core.tlc_export('Gen_ReflStream', 'Gen_ReflStream_big.cfg' if tier == 'thorough' else 'Gen_ReflStream.cfg', workers=1, timeout=600)
     mc.append(st)
     sst = session_stims(seed, tier, rows)
@@ -137,7 +148,7 @@ def check(prop, tier, seed):
                          ['the enum-value spelling in the enclosing scope (pkg.V instead of pkg.E.V) is excluded from the negative set: protobuf scoping would declare it, the statement does not choose',
                           'names in tonic\'s own grpc.reflection namespace are not constrained',
                           '"decodes to what was registered" is prost equality of the decoded FileDescriptorProto with the registered one (projection)'],
-                         'tlc MC_ReflStream.cfg + MC_ReflStream_trysend.cfg (must violate) + Gen_ReflStream.cfg (scripts); vh reflect; tlc Trace_Reflect.cfg')
+                         'tlc MC_ReflStream.cfg + MC_ReflStream_trysend.cfg (must violate) + Gen_ReflStream.cfg (scripts); tlapm ReflStreamProof.tla; vh reflect; tlc Trace_Reflect.cfg')
 
 
 def replay(prop, path):
